@@ -1,7 +1,61 @@
-(* placeholder until the codec theorems land *)
+(* C01 - honest registration + login always agree on keys.  Statement only; proof in
+   Theory/Honest.v (composition of Theory/Layers.v).
+   Generic in the suite record: holds for every instantiation satisfying HashLaws and
+   GroupLaws, i.e. for all 20 concrete suites GIVEN the group laws of the concrete curves
+   (a hypothesis, DESIGN.md 6; proved for the toy suite), for every password, credential
+   identifier, identities, context, key-stretching instance and random tape. *)
 From Coq Require Import List.
-From OKE Require Import BytesLemmas.
-Theorem C01_placeholder : forall l x y px py r1 r2,
-  Bytes.lenprefix l x = Some px -> Bytes.lenprefix l y = Some py -> px ++ r1 = py ++ r2 -> x = y /\ r1 = r2.
-Proof. exact lenprefix_inj. Qed.
-Print Assumptions C01_placeholder.
+From OKE Require Import Bytes Suite Voprf Messages Envelope TripleDH Opaque Laws Honest.
+
+Theorem C01_honest_login_agrees :
+  forall E Sc Pk Sk (CS : Suite E Sc Pk Sk), HashLaws (hash CS) -> GroupLaws CS ->
+  forall tape setup t1 pw creg rq t2 cred rr ids ksf upload ek spk t3 clog ke1 t4 ctx slog ke2 t5 dbg,
+    (* non-degeneracy: hash-to-group did not hit the identity; the evaluation is not the reflected request *)
+    ve CS (o_h2g (oprf CS) pw (dst_hash_to_group (oprf CS))) ->
+    (* the steps up to the server's response ran (their only failures are resource / degenerate ones) *)
+    server_setup_new CS tape = Ok (setup, t1) ->
+    client_registration_start CS t1 pw = Ok (creg, rq, t2) ->
+    server_registration_start CS setup rq cred = Ok rr ->
+    client_registration_finish CS creg t2 pw rr ids ksf = Ok (upload, ek, spk, t3) ->
+    client_login_start CS t3 pw = Ok (clog, ke1, t4) ->
+    server_login_start CS (private_key_ops (ke CS)) t4 setup (Some (server_registration_finish upload)) ke1 cred ctx ids
+      = Ok (slog, ke2, t5, dbg) ->
+    o_eqb (oprf CS) (cq_blinded ke1) (cr_eval ke2) = false ->
+    (* then the client accepts, the server accepts the client's finalization, both hold the same session key,
+       the client gets the registration's export key [ek] and the server public key [spk] it saw at registration,
+       which is the public key of the setup's static key *)
+    exists ke3 sk dbg',
+      client_login_finish CS clog pw ke2 ctx ids ksf = Ok (ke3, sk, ek, spk, dbg') /\
+      server_login_finish CS slog ke3 = Ok sk /\
+      spk = kp_pk (ss_keypair setup) /\ kp_pk (ss_keypair setup) = k_pub (ke CS) (kp_sk (ss_keypair setup)).
+Proof. exact @honest_login_agrees. Qed.
+Print Assumptions C01_honest_login_agrees.
+
+(* the output of the OPRF does not depend on the blind (used above; also C14) *)
+Theorem C01_oprf_unblind :
+  forall E Sc Pk Sk (CS : Suite E Sc Pk Sk), GroupLaws CS ->
+  forall input r k P, ve CS P -> vs CS r -> vs CS k ->
+    voprf_finalize (hash CS) (oprf CS) r input (o_mul (oprf CS) (o_mul (oprf CS) P r) k) =
+    match i2osp_nat 2 (length input) with
+    | None => Err (ELibrary (LOprfError OInput))
+    | Some len => Ok (h_hash (hash CS) (len ++ input ++ be_bytes 2 (BinNat.N.of_nat (o_Noe (oprf CS))) ++
+                                        o_ser_e (oprf CS) (o_mul (oprf CS) P k) ++ Labels.STR_FINALIZE))
+    end.
+Proof. exact @Layers.oprf_unblind. Qed.
+Print Assumptions C01_oprf_unblind.
+
+(* both sides of 3DH derive the same keys and accept each other's MAC *)
+Theorem C01_ke_agreement :
+  forall E Sc Pk Sk (CS : Suite E Sc Pk Sk), GroupLaws CS ->
+  forall tape req l2 cnonce ce cs ss u s ctx st ke2 rest dbg,
+    vk CS ce -> vk CS cs -> vk CS ss ->
+    generate_ke2 CS (private_key_ops (ke CS)) tape req l2
+                 {| k1_nonce := cnonce; k1_client_e_pk := k_pub (ke CS) ce |} (k_pub (ke CS) cs) ss u s ctx
+      = Ok (st, ke2, rest, dbg) ->
+    exists dbg',
+      generate_ke3 CS l2 ke2 {| k1s_client_e_sk := ce; k1s_nonce := cnonce |} req (k_pub (ke CS) ss) cs u s ctx
+        = Ok (sl_session_key st, {| cf_mac := h_hmac (hash CS) (sl_km3 st) (sl_hashed_transcript st) |}, dbg') /\
+      server_login_finish CS st {| cf_mac := h_hmac (hash CS) (sl_km3 st) (sl_hashed_transcript st) |}
+        = Ok (sl_session_key st).
+Proof. exact @Layers.ke_agreement. Qed.
+Print Assumptions C01_ke_agreement.
